@@ -3,7 +3,13 @@ the correspondence streams and the level claimed."""
 
 CORE = ["GenConst", "GenCursor", "GenLabels", "GenNames"]
 
+DEC = CORE + ["GenHeader", "GenTypes", "GenTracker", "GenReader", "GenRData"]
+
 PROPS = {
+    "C01": {"level": "proof", "areas": DEC, "theorems": [], "streams": ["scripts", "decode"]},
+    "C04": {"level": "proof", "areas": DEC, "theorems": [], "streams": ["rdlen"]},
+    "C10": {"level": "proof", "areas": DEC, "theorems": [], "streams": ["randacc"]},
+    "C17": {"level": "proof", "areas": DEC, "theorems": [], "streams": ["misuse"]},
     "C03": {
         "level": "proof",
         "areas": CORE,
